@@ -80,13 +80,32 @@ def demap_mol(mol):
     return m
 
 
+_canon_cache = {}
+
+
+def _canon(f):
+    """canonical SMILES that does not remember anything of cleared atom maps:
+    stereo perceived while maps were present (maps break ring symmetry) is
+    re-perceived by a round trip through text"""
+    s1 = Chem.MolToSmiles(f)
+    if "@" not in s1 and "/" not in s1 and "\\" not in s1:
+        return s1
+    if s1 in _canon_cache:
+        return _canon_cache[s1]
+    m2 = Chem.MolFromSmiles(s1)
+    s2 = Chem.MolToSmiles(m2) if m2 is not None else s1
+    if len(_canon_cache) < 200000:
+        _canon_cache[s1] = s2
+    return s2
+
+
 def frags_mol(mol):
     """Multiset of canonical SMILES of connected components, maps cleared
     through the API; stereo, isotopes, charges kept."""
     m = demap_mol(mol)
     out = Counter()
     for f in Chem.GetMolFrags(m, asMols=True, sanitizeFrags=False):
-        out[Chem.MolToSmiles(f)] += 1
+        out[_canon(f)] += 1
     return out
 
 
